@@ -17,7 +17,8 @@ NONTRIVIAL_RULE = ('strings and lists over alphabets of 1..12 symbols (single ch
                    'mutual_information (independent, equal, functionally dependent and noisy pairs); automata T x N with '
                    'T < N, T = N, T > N and states in {0,1}, {0..20}, {-1,1}, {-3..12}, magnitudes up to 2^62, for '
                    'average_cell_entropy and for average_mutual_information with every temporal distance in '
-                   '-1 .. max(T,N)+1; non-trivial = the call returned a finite double whose model value is not 0 '
+                   '-1 .. max(T,N)+1; sequences of 2-4 calls of both on ONE ndarray object modified in place between the calls '
+                   '(and with a second array passed in between), each call compared with the model on the contents at that time; non-trivial = the call returned a finite double whose model value is not 0 '
                    '(at least two distinct symbols somewhere), or was rejected by the guard; distinct = distinct case dicts')
 EXHAUSTIVE = {'quick': False, 'thorough': False}
 NOTES = ['every temporal distance from -1 to max(T,N)+1 is swept for every generated automaton',
@@ -211,6 +212,100 @@ def generate(rng, tier):
         for d in range(-1, max(T, N) + 2):
             verdict = 'accepted' if 0 < d < T else 'rejected'
             yield {'kind': 'ami/%s/%s' % (shape, verdict), 'op': 'ami', 'rows': rows, 'd': d, 'fam': fam}
+    n_seq = 100 if tier == 'quick' else 800
+    for i in range(n_seq):
+        yield _sequence_case(rng, ['edit', 'edit', 'edit', 'other', 'other', 'noedit'][i % 6])
+
+
+# ---- sequences of calls on ONE ndarray object that is modified in place between the calls
+def _apply_edits(rows, edits):
+    """pure-Python twin of the in-place edits (rows: list of lists, modified in place)"""
+    T, N = len(rows), len(rows[0])
+    for e in edits:
+        if e[0] == 'set':
+            rows[e[1]][e[2]] = e[3]
+        elif e[0] == 'col':
+            for t in range(T):
+                rows[t][e[1]] = e[2][t]
+        elif e[0] == 'row':
+            rows[e[1]] = list(e[2])
+        elif e[0] == 'neg':
+            for t in range(T):
+                rows[t] = [-x for x in rows[t]]
+        elif e[0] == 'fill':
+            for t in range(T):
+                rows[t] = [e[1]] * N
+
+
+def _apply_edits_np(ca, edits):
+    for e in edits:
+        if e[0] == 'set':
+            ca[e[1], e[2]] = e[3]
+        elif e[0] == 'col':
+            ca[:, e[1]] = e[2]
+        elif e[0] == 'row':
+            ca[e[1], :] = e[2]
+        elif e[0] == 'neg':
+            ca *= -1
+        elif e[0] == 'fill':
+            ca[:, :] = e[1]
+
+
+def _rand_edit(rng, T, N, fam):
+    k = rng.random()
+    if k < 0.35:
+        return ['set', rng.randrange(T), rng.randrange(N), _state(rng, fam)]
+    if k < 0.65:
+        return ['col', rng.randrange(N), [_state(rng, fam) for _ in range(T)]]
+    if k < 0.8:
+        return ['row', rng.randrange(T), [_state(rng, fam) for _ in range(N)]]
+    if k < 0.93:
+        return ['neg']
+    return ['fill', _state(rng, fam)]
+
+
+def _sequence_case(rng, variant):
+    T, N = rng.randint(3, 7), rng.randint(1, 5)
+    fam = rng.choice(['bin', 'k21', 'pm1', 'm3_12', 'big'])
+    rows = _automaton(rng, T, N, fam)
+    other = None
+    if variant == 'other':
+        T2, N2 = (T, N) if rng.random() < 0.5 else (rng.randint(3, 7), rng.randint(1, 5))
+        other = [list(r) for r in rows] if rng.random() < 0.3 and (T2, N2) == (T, N) else _automaton(rng, T2, N2, fam)
+    steps = []
+    for k in range(rng.randint(2, 4)):
+        edits = []
+        if k > 0 and (variant != 'noedit') and rng.random() < 0.9:
+            edits = [_rand_edit(rng, T, N, fam) for _ in range(rng.randint(1, 2))]
+        target = 'main'
+        if variant == 'other' and 0 < k and rng.random() < 0.5:
+            target = 'other'
+        Tt = T if target == 'main' else len(other)
+        if rng.random() < 0.45:
+            steps.append({'edits': edits, 'target': target, 'call': 'ace', 'd': 0})
+        else:
+            d = rng.choice([1, 1, 2, rng.randint(1, Tt - 1)]) if rng.random() < 0.85 else rng.choice([0, Tt, -1, Tt + 1])
+            steps.append({'edits': edits, 'target': target, 'call': 'ami', 'd': d})
+    if variant == 'other' and not any(st['target'] == 'other' for st in steps):
+        steps[1]['target'] = 'other'
+        if steps[1]['call'] == 'ami':
+            steps[1]['d'] = 1
+    return {'kind': 'sequence/inplace/' + variant, 'op': 'seq', 'rows': rows, 'other': other, 'steps': steps, 'fam': fam}
+
+
+def _step_cases(c):
+    """the ordinary ace / ami case each call of a sequence amounts to: the contents AT THE TIME of the call"""
+    cur = [list(r) for r in c['rows']]
+    oth = [list(r) for r in c['other']] if c.get('other') else None
+    out = []
+    for st in c['steps']:
+        _apply_edits(cur, st['edits'])           # edits always go to the main array
+        rows = cur if st['target'] == 'main' else oth
+        sub = {'op': st['call'], 'rows': [list(r) for r in rows], 'fam': c.get('fam')}
+        if st['call'] == 'ami':
+            sub['d'] = st['d']
+        out.append(sub)
+    return out
 
 
 # ---------------------------------------------------------------- implementation runner
@@ -231,6 +326,18 @@ def run_impl(c):
             r = call_impl(lambda: dbl(cpl.joint_shannon_entropy(_arg(c['X'], c['form']), _arg(c['Y'], c['form']))))
         elif op == 'mi':
             r = call_impl(lambda: dbl(cpl.mutual_information(_arg(c['X'], c['form']), _arg(c['Y'], c['form']))))
+        elif op == 'seq':
+            ca = np.array(c['rows'], dtype=np.int64)          # ONE object for the whole sequence
+            cb = np.array(c['other'], dtype=np.int64) if c.get('other') else None
+            out = []
+            for st in c['steps']:
+                _apply_edits_np(ca, st['edits'])              # in place: same object, new contents
+                arr = ca if st['target'] == 'main' else cb
+                if st['call'] == 'ace':
+                    out.append(list(call_impl(lambda: dbl(cpl.average_cell_entropy(arr)))))
+                else:
+                    out.append(list(call_impl(lambda: dbl(cpl.average_mutual_information(arr, st['d'])))))
+            return out
         elif op == 'ace':
             r = call_impl(lambda: dbl(cpl.average_cell_entropy(np.array(c['rows'], dtype=np.int64))))
         else:
@@ -242,8 +349,26 @@ def _series(rows, i):
     return [str(r[i]) for r in rows]
 
 
+def _auto_term(ctor_ace, ctor_ami, c, obs):
+    o = cres(obs, cdbl)
+    rows = c['rows']
+    T, N = len(rows), len(rows[0])
+    if c['op'] == 'ace':
+        ref = [(ref_counts(_series(rows, i)), T) for i in range(N)]
+        return '(%s %s %s %s)' % (ctor_ace, cgrid(rows), clist(ref, lambda cn: '(%s, %s)' % (cnats(cn[0]), cnat(cn[1]))), o)
+    d = c['d']
+    ref = []
+    if 0 < d < T:
+        for i in range(N):
+            s = _series(rows, i)
+            ref.append(ref_cell(s[:-d], s[d:]))
+    return '(%s %s %s %s %s)' % (ctor_ami, cgrid(rows), cz(d), clist(ref, ccell), o)
+
+
 def to_coq(c, obs):
     op = c['op']
+    if op == 'seq':
+        return '(CSeq %s)' % clist(list(zip(_step_cases(c), obs)), lambda so: _auto_term('SAce', 'SAmi', so[0], so[1]))
     o = cres(obs, cdbl)
     if op == 'shannon':
         return '(CShannon %s %s %s)' % (csyms(c['X']), cnats(ref_counts(c['X'])), o)
@@ -251,18 +376,7 @@ def to_coq(c, obs):
         return '(CJoint %s %s %s %s)' % (csyms(c['X']), csyms(c['Y']), cnats(ref_joint(c['X'], c['Y'])), o)
     if op == 'mi':
         return '(CMI %s %s %s %s)' % (csyms(c['X']), csyms(c['Y']), ccell(ref_cell(c['X'], c['Y'])), o)
-    rows = c['rows']
-    T, N = len(rows), len(rows[0])
-    if op == 'ace':
-        ref = [(ref_counts(_series(rows, i)), T) for i in range(N)]
-        return '(CACE %s %s %s)' % (cgrid(rows), clist(ref, lambda cn: '(%s, %s)' % (cnats(cn[0]), cnat(cn[1]))), o)
-    d = c['d']
-    ref = []
-    if 0 < d < T:
-        for i in range(N):
-            s = _series(rows, i)
-            ref.append(ref_cell(s[:-d], s[d:]))
-    return '(CAMI %s %s %s %s)' % (cgrid(rows), cz(d), clist(ref, ccell), o)
+    return _auto_term('CACE', 'CAMI', c, obs)
 
 
 def _ref_value(c):
@@ -289,6 +403,8 @@ def _ref_value(c):
 
 
 def nontrivial(c, obs):
+    if c['op'] == 'seq':
+        return any(st['edits'] for st in c['steps'][1:]) and all(nontrivial(sc, o) or o[0] == 'ok' for sc, o in zip(_step_cases(c), obs))
     if obs[0] != 'ok':
         return c['op'] == 'ami'
     if obs[1] is None:
@@ -298,6 +414,12 @@ def nontrivial(c, obs):
 
 def oracle(c, obs):
     """The property evaluated on the implementation's own answer, in plain Python floats."""
+    if c['op'] == 'seq':
+        for k, (sc, o) in enumerate(zip(_step_cases(c), obs)):
+            msg = oracle(sc, o)
+            if msg:
+                return 'call %d of the sequence (contents at that time %r): %s' % (k + 1, sc['rows'], msg)
+        return None
     if c['op'] == 'ami':
         T = len(c['rows'])
         accepted = 0 < c['d'] < T
@@ -323,6 +445,19 @@ def oracle(c, obs):
 
 
 def shrink(c):
+    if c['op'] == 'seq':
+        st = c['steps']
+        if len(st) > 1:
+            yield dict(c, steps=st[:-1])
+            merged = dict(st[1], edits=st[0]['edits'] + st[1]['edits'])
+            yield dict(c, steps=[merged] + st[2:])
+            for k in range(1, len(st) - 1):          # drop a middle call, keep its edits
+                nxt = dict(st[k + 1], edits=st[k]['edits'] + st[k + 1]['edits'])
+                yield dict(c, steps=st[:k] + [nxt] + st[k + 2:])
+        for k, x in enumerate(st):
+            if len(x['edits']) > 1:
+                yield dict(c, steps=st[:k] + [dict(x, edits=x['edits'][:1])] + st[k + 1:])
+        return
     if c['op'] in ('shannon',):
         X = c['X']
         if len(X) > 1:
